@@ -188,8 +188,13 @@ def register(R):
         loops = [e for e in c.trace if e.kind == 'loop']
         cl = exts(c.trace, 'fileobj_or_name.close')
         run = z3.And(z3.Not(is_none(c.oldf('_close_callbacks'))), b2z(c.oldf('_callbacks_enabled')))
+        each = all(len([e for e in alt if e.kind == 'ext']) == 1 and [e for e in alt if e.kind == 'ext'][0].recv is item
+                   for lp in loops for alt, item in zip(lp.alts, lp.items))
         return {
-            'close_callbacks_run_iff_reporting_enabled': (z3.If(run, B(len(loops) == 1), B(len(loops) == 0)), ['C09']),
+            'close_callbacks_run_iff_reporting_enabled': (z3.If(run, B(len(loops) == 1 and loops[0].iterable is (
+                c.oldf('_close_callbacks').val if isinstance(c.oldf('_close_callbacks'), Opt) else c.oldf('_close_callbacks'))), B(len(loops) == 0)), ['C09']),
+            # (the close callback of an upload body flushes the progress still pending in its aggregator)
+            'each_close_callback_invoked_exactly_once': (B(bool(each)), ['C09']),
             'underlying_closed': B(len(cl) == 1),
         }
 
